@@ -310,17 +310,20 @@ fn expand(exprs: &mut Vec<SExpr>, templates: &[Template], _lsp_hints: &mut LspHi
 
         // Ensure replacements are sorted. They probably are, but may as well make sure.
         replacements.sort_by_key(|r| r.insert_index);
-        // Must replace last-first to keep unreplaced insertion points stable.
-        // perf_2 : could construct vec in one pass.
-        for replacement in replacements.iter().rev() {
-            let (before, after) = exprs.split_at(replacement.insert_index);
-            let after = after.iter().skip(1); // first element is `(template-expand ...)`
-            let new_vec = before
-                .iter()
-                .cloned()
-                .chain(replacement.exprs.iter().cloned())
-                .chain(after.cloned())
-                .collect();
+        // Construct the new vec in one pass: the element at an insertion point is the
+        // `(template-expand ...)` list itself and is replaced by the expansion.
+        if !replacements.is_empty() {
+            let mut new_vec = Vec::with_capacity(exprs.len());
+            let mut pending = replacements.iter().peekable();
+            for (expr_index, expr) in exprs.iter().enumerate() {
+                match pending.peek() {
+                    Some(replacement) if replacement.insert_index == expr_index => {
+                        new_vec.extend(replacement.exprs.iter().cloned());
+                        pending.next();
+                    }
+                    _ => new_vec.push(expr.clone()),
+                }
+            }
             *exprs = new_vec;
         }
 
